@@ -29,6 +29,14 @@ type Loader struct {
 	// InnerSpelled is the spelled path of the file that actually executes the
 	// nested load (differs from Spelled for two-level loaders).
 	InnerSpelled string
+	// HopReq is set for hop contexts (Layout.Hops): Spelled is then a hop file
+	// (`(verif:probe 'TAG)` followed by a load of HopReq performed either by a
+	// host Go builtin calling a LoadFile entry point of the environment it was
+	// handed, or by the load-file builtin), and HopReq is the request, spelled
+	// relative to the hop file's directory, that reaches the loader file which
+	// performs the nested load of the location under test.  The request is by
+	// construction not the true location of that loader file.
+	HopReq string
 }
 
 // RootSpec is one way to name the root directory in a configuration.
@@ -48,8 +56,11 @@ type Layout struct {
 	Roots   []RootSpec // spellings for RelativeFileSystemLibrary.RootDir
 	FSRoots []RootSpec // spellings for os.DirFS / os.OpenRoot (absolute)
 	Loaders []Loader
-	Secret  string   // token contained in a non-lisp outside file
-	Starts  []string // sandbox-relative directories location enumeration starts from
+	// Hops are the contexts in which the loader file is itself loaded from a
+	// running file with a relative request (interpreter entry points only).
+	Hops   []Loader
+	Secret string   // token contained in a non-lisp outside file
+	Starts []string // sandbox-relative directories location enumeration starts from
 	// Plain layouts carry `"MARKER"` as file content (no probe builtins): for
 	// runs of the real elps command line, which has no host builtins.
 	Plain bool
@@ -78,6 +89,47 @@ func (l *Layout) loaderFile(rel string) string {
 	m := l.marker("ldr_" + rel)
 	l.Tree.AddFile(rel, m, fmt.Sprintf("(verif:probe '%s) (load-file (verif:c20-loc))\n", m))
 	return m
+}
+
+// HopName is the file name of the hop files.  They are not listed by the
+// location enumeration (they exist only to load a loader file from a running
+// file), so the location grammar is the same with and without them.
+const HopName = "c20hop.lisp"
+
+// hopFile adds the hop file of directory dir and returns its marker.
+func (l *Layout) hopFile(dir string) string {
+	rel := join(dir, HopName)
+	m := l.marker("hop_" + rel)
+	l.Tree.AddFile(rel, m, fmt.Sprintf("(verif:probe '%s) (if (verif:c20-hop-lisp?) (load-file (verif:c20-hop-req)) (verif:c20-hop))\n", m))
+	return m
+}
+
+// listed is the directory listing the location enumeration works from.
+func listed(n *fsmodel.Node) []string {
+	kids := n.SortedKids()
+	out := kids[:0:0]
+	for _, k := range kids {
+		if k != HopName {
+			out = append(out, k)
+		}
+	}
+	return out
+}
+
+// hop builds the context "the hop file of directory dir loads req, which
+// reaches loader y": chain = hop file, then y's chain; the nested load of the
+// location under test is resolved against y's directory (ctxDirs: the
+// candidates when req passes through a link).
+func (l *Layout) hop(label, via, dir, hopMarker, req string, y Loader, ctxDirs []string) {
+	if via == "" {
+		via = join(dir, HopName)
+	}
+	inner := y.Spelled
+	if y.InnerSpelled != "" {
+		inner = y.InnerSpelled
+	}
+	l.Hops = append(l.Hops, Loader{Label: label, Spelled: via, Chain: append([]string{hopMarker}, y.Chain...),
+		CtxDirs: ctxDirs, InnerSpelled: inner, HopReq: req})
 }
 
 // RelPath spells the path from directory `from` to `to` (both sandbox-relative
@@ -264,6 +316,24 @@ func buildFixed(base string, variant int, plain bool) *Layout {
 		{Label: "ldr-via-filelink", Spelled: in("lk_ldr"), Chain: []string{m2}, CtxDirs: []string{R, in("sub")}},
 		{Label: "ldr-via-dirlink", Spelled: in("ld_deep/ldr.lisp"), Chain: []string{m3}, CtxDirs: []string{in("ld_deep"), in("sub/deep")}},
 	}
+	if !plain {
+		// hop contexts: a file in one directory loads a loader file living in
+		// another (or the same) directory by a relative request
+		h1 := l.hopFile(R)
+		h2 := l.hopFile(in("sub"))
+		h3 := l.hopFile(in("sub/deep"))
+		ldRoot, ldSub, ldDeep := l.Loaders[0], l.Loaders[1], l.Loaders[2]
+		l.hop("hop-root>sub", "", R, h1, "sub/ldr.lisp", ldSub, ldSub.CtxDirs)
+		l.hop("hop-sub>deep", "", in("sub"), h2, "deep/ldr.lisp", ldDeep, ldDeep.CtxDirs)
+		l.hop("hop-deep>sub", "", in("sub/deep"), h3, "../ldr.lisp", ldSub, ldSub.CtxDirs)
+		l.hop("hop-sub>root", "", in("sub"), h2, "../ldr.lisp", ldRoot, ldRoot.CtxDirs)
+		l.hop("hop-sub>sub", "", in("sub"), h2, "ldr.lisp", ldSub, ldSub.CtxDirs)
+		l.hop("hop-root>deep-unclean", "", R, h1, "./sub//deep/./ldr.lisp", ldDeep, ldDeep.CtxDirs)
+		l.hop("hop-sub>deep-via-dirlink", "", in("sub"), h2, "../ld_deep/ldr.lisp", ldDeep, []string{in("ld_deep"), in("sub/deep")})
+		l.hop("hop-deep>sub-via-filelink", "", in("sub/deep"), h3, "../../lk_ldr", ldSub, []string{R, in("sub")})
+		// the hop file itself reached through a directory link
+		l.hop("hop-linked-sub>deep", in("ld_in/"+HopName), in("sub"), h2, "deep/ldr.lisp", ldDeep, []string{in("ld_in/deep"), in("sub/deep")})
+	}
 	l.finish(Rlink, Rl2)
 	l.Starts = uniq([]string{R, in("sub/deep"), l.CwdRel, ""})
 	return l
@@ -422,6 +492,21 @@ func buildRandom(base string, variant int, r *fw.RNG) *Layout {
 			}
 		}
 	}
+	// hop contexts: every ordered pair of loader directories (the same
+	// directory included), and every loader reached through a link from the
+	// hop file of the root
+	hm := make([]string, len(ldirs))
+	for i, d := range ldirs {
+		hm[i] = l.hopFile(d)
+	}
+	for i, dx := range ldirs {
+		for j, dy := range ldirs {
+			l.hop(fmt.Sprintf("hop-%d>%d", i, j), "", dx, hm[i], RelPath(dx, join(dy, "ldr.lisp")), l.Loaders[j], l.Loaders[j].CtxDirs)
+		}
+	}
+	for _, ld := range l.Loaders[len(ldirs):] {
+		l.hop("hop-0>"+strings.TrimPrefix(ld.Label, "ldr-"), "", R, hm[0], RelPath(R, ld.Spelled), ld, ld.CtxDirs)
+	}
 	return l
 }
 
@@ -487,11 +572,11 @@ func Locations(l *Layout, depth int, r *fw.RNG, nrand int) []string {
 			}
 			nd := dead
 			if res.Err == fsmodel.OK && res.Node.Kind == fsmodel.Dir && !res.Node.Opaque {
-				choices = append(choices, res.Node.SortedKids()...)
+				choices = append(choices, listed(res.Node)...)
 				choices = append(choices, ".", "..", "nx")
 			} else if res.Err == fsmodel.OK && res.Node.Kind == fsmodel.Dir && res.Node.Opaque {
 				// above the sandbox: the one known child, and ".."
-				choices = append(choices, res.Node.SortedKids()...)
+				choices = append(choices, listed(res.Node)...)
 				choices = append(choices, "..")
 			} else {
 				if dead >= 2 {
@@ -519,7 +604,7 @@ func Locations(l *Layout, depth int, r *fw.RNG, nrand int) []string {
 				}
 				var c string
 				if res.Err == fsmodel.OK && res.Node.Kind == fsmodel.Dir && len(res.Node.Kids) > 0 && !r.Chance(1, 4) {
-					kids := res.Node.SortedKids()
+					kids := listed(res.Node)
 					// prefer links and directories
 					c = fw.Pick(r, kids)
 					for tries := 0; tries < 2 && res.Node.Kids[c].Kind == fsmodel.File && len(comps) < n-1; tries++ {
